@@ -91,6 +91,7 @@ func checkC10(c c10Case) (Outcome, error) {
 		fn, name = w.Fast, sc.Workflow+"-fast"
 	}
 	out := Outcome{Classes: []string{"workflow:" + name, "plan:" + c.PlanKind, "target:" + sc.Target}}
+	sc.runPrior(stream, &out)
 	vRef, eRef := w.Seq(gen.NewReader(stream))
 	var v bool
 	var e error
@@ -174,6 +175,7 @@ func genC10(t *rapid.T) c10Case {
 	}
 	kind, plan := drawPlan(t, sc.wf().SampleBytes)
 	sc.Plan = plan
+	drawPrior(t, &sc)
 	c := c10Case{Stream: sc, PlanKind: kind}
 	if os.Getenv("VERIF_TARGETS") == "" && rapid.IntRange(0, 3).Draw(t, "stdsource") == 0 {
 		c.Source = rapid.SampledFrom([]string{"bytes.Reader@offset", "os.File@offset"}).Draw(t, "source")
